@@ -12,6 +12,7 @@ import (
 	"bytes"
 	"context"
 	"crypto/sha256"
+	"encoding/binary"
 	"encoding/json"
 	"fmt"
 	"io"
@@ -752,6 +753,56 @@ func (r *vRepoC03) blobIntact(packBytes []byte, b vBlobC03) bool {
 		}
 	}
 	return restic.ID(sha256.Sum256(pt)) == b.H.ID
+}
+
+// headerBlobs decodes, by hand, the blob list a (possibly damaged or misplaced) pack file
+// carries in its own header: last 4 bytes = little-endian length of the sealed header in
+// front of them; entries = type(1) length(4) [uncompressed length(4) for types 2,3] id(32);
+// offsets are cumulative. nil if the header does not authenticate or does not parse.
+func (r *vRepoC03) headerBlobs(pack string, buf []byte) []vBlobC03 {
+	if len(buf) < 4+crypto.Extension {
+		return nil
+	}
+	hlen := int(binary.LittleEndian.Uint32(buf[len(buf)-4:]))
+	if hlen < crypto.Extension || hlen > len(buf)-4 {
+		return nil
+	}
+	hdr := buf[len(buf)-4-hlen : len(buf)-4]
+	pt, err := r.key.Open(nil, hdr[:16], hdr[16:], nil)
+	if err != nil {
+		return nil
+	}
+	var out []vBlobC03
+	off := 0
+	for len(pt) > 0 {
+		if len(pt) < 37 {
+			return nil
+		}
+		b := vBlobC03{Pack: pack, Off: off}
+		tpe := pt[0]
+		switch tpe {
+		case 0, 2:
+			b.H.Type = restic.DataBlob
+		case 1, 3:
+			b.H.Type = restic.TreeBlob
+		default:
+			return nil
+		}
+		b.Len = int(binary.LittleEndian.Uint32(pt[1:5]))
+		pt = pt[5:]
+		if tpe >= 2 {
+			if len(pt) < 36 {
+				return nil
+			}
+			b.ULen = int(binary.LittleEndian.Uint32(pt[:4]))
+			pt = pt[4:]
+		}
+		copy(b.H.ID[:], pt[:32])
+		pt = pt[32:]
+		off += b.Len
+		out = append(out, b)
+	}
+	return out
 }
 
 // ---------------------------------------------------------------------------
